@@ -186,7 +186,7 @@ func (P *Prog) verifyFunctionCase(fn *ssa.Function, con *Contract, caseParam str
 						vc.modRefs[t.place.Comp] = append(vc.modRefs[t.place.Comp], t.place.Ref)
 					}
 				case "arr":
-					c := vc.arrComp(t.elem)
+					c := vc.tgtArrComp(t)
 					vc.modRefs[c] = append(vc.modRefs[c], t.ref)
 				case "comp":
 					vc.modWhole[t.comp] = true
@@ -339,7 +339,7 @@ func (vc *VC) checkFrame(fr *Frame, exit, entry *State, con *Contract, env *Spec
 			case "place":
 				byComp[t.place.Comp] = append(byComp[t.place.Comp], t)
 			case "arr":
-				byComp[vc.arrComp(t.elem)] = append(byComp[vc.arrComp(t.elem)], t)
+				byComp[vc.tgtArrComp(t)] = append(byComp[vc.tgtArrComp(t)], t)
 			case "comp":
 				byComp[t.comp] = append(byComp[t.comp], t)
 			}
